@@ -237,6 +237,14 @@ def check(run, F, tier):
             problems.setdefault("counter changed although nothing was erased", p)
         if cw == ["dec"] and not positive(p):
             problems.setdefault("decrement not dominated by `count > 0`", p)
+        # an erased PUBLISH (QoS 1 or QoS 2, whichever set tracked it) was an incomplete counted exchange: with a
+        # Receive Maximum announced (or not ruled out on the path) its slot is given back unless the counter is already decided zero
+        if erased and p.kind == "return" and cw == [] and "Some" in conn.possible(F, p, maxt, OPT):
+            c = p.cons.get(cntt)
+            zero = (c == ("eq", 0)) or any(k[0] == "cmp" and k[1] == "Lt" and k[2][0] == "c" and k[2][1] == 0 and k[3] == ("sym", cntt) and cc == ("eq", 0) for k, cc in p.cons.items()) \
+                or conn.decide(p, {}, ("sym", cntt), "le", ("c", 0, "u16")) is True
+            if not zero:
+                problems.setdefault("stored PUBLISH erased with Receive Maximum announced but the counter is not decremented (slot leaked)", p)
     for pr, p in sorted(problems.items()):
         r2.violation("erase_stored_publish/" + pr, "erase_stored_publish: " + pr, conn.path_summary(p))
     if not problems:
